@@ -95,6 +95,17 @@ def oracle(u):
         bad.append(("rates", "rates %r -> %r (one of them not positive) accepted" % (ir, orr)))
     if accepted:
         a = cl.kv(r)
+        # SOXR_* overrides outside their documented ranges must be ignored (INSTALL / soxr.h: 8..15, 8..20, 100..800, 0..64)
+        for name, field, lo, hi in (("SOXR_MIN_DFT_SIZE", "min", 8, 15), ("SOXR_LARGE_DFT_SIZE", "large", 8, 20),
+                                    ("SOXR_COEFS_SIZE", "kb", 100, 800), ("SOXR_NUM_THREADS", "threads", 0, 64)):
+            v = cfg.get("E." + name)
+            if v is None:
+                continue
+            txt = cl.unhexs(v)
+            if txt.lstrip("-").isdigit() and len(txt) < 9 and not (lo <= int(txt) <= hi):
+                given = int(cfg.get(field, {"min": 10, "large": 17, "kb": 400, "threads": 1}[field])) if int(cfg.get("rt", 1)) else {"min": 10, "large": 17, "kb": 400, "threads": 1}[field]
+                if int(a[field]) == int(txt) and given != int(txt):
+                    bad.append(("env-range", "%s=%s (outside the documented range %d..%d) took effect" % (name, txt, lo, hi)))
         if a["ready"] == "1" and a["engine"] in CR_ENGINES:
             p, ph, pb, sb = (cl.b2d(a[k]) for k in ("prec", "phase", "pb", "sb"))
             if math.isfinite(p) and p != 0 and clearly(p, 15, 33, 1e-9)[1]:
@@ -580,9 +591,9 @@ def run(ctx):
         cr.report_broken(ctx, broken, "replay only")
         return
     stage_constructors(ctx, exe)
-    units = stage_create(ctx, exe, 5000 if ctx.quick else 60000, known)
-    stage_api(ctx, exe, 1500 if ctx.quick else 30000, known)
-    stage_working(ctx, units, 220 if ctx.quick else 2500, known)
+    units = stage_create(ctx, exe, 5000 if ctx.quick else 120000, known)
+    stage_api(ctx, exe, 1500 if ctx.quick else 60000, known)
+    stage_working(ctx, units, 220 if ctx.quick else 5000, known)
     stage_pinned(ctx, exe, known)
     ctx.cov["rule"] = ("generated soxr_create calls over the product space (rates: audio / small integers / 1e-300..1e300 decades / the 2^31 factor bound / "
                        "big up-sampling / zeros, signs, non-finite, overflowing quotients; channels 0..300; recipes 0..15 x phase bits x steep x flag words; "
